@@ -293,15 +293,20 @@ def contract_call(eng, st, site, func, args, dty):
     W = v.W if kind == "abs" else st.cells[veccell].len
     wid = v.wid if kind == "abs" else ("vec", veccell)
     us = eng.usize_ty()
+    # positions of a caller-supplied writer are absolute; a writer created locally starts at 0
+    tnt = ABS if kind == "abs" else None
     if item == "len":
-        return [(st, VInt(us, W, None, None, ABS))]
+        return [(st, VInt(us, W, None, None, tnt))]
     if item == "is_empty":
-        return [(st, VBool(("atom", c_eq(W, Lin.const(0))), ABS))]
+        return [(st, VBool(("atom", c_eq(W, Lin.const(0))), tnt))]
     if item in WRITE_W:
         n = WRITE_W[item]
         val = args[1]
         writer_append(eng, st, view, Lin.const(n), ("be", val, n))
         st.emit(("w", wid, item, val, site_info(site)))
+        hook = eng.hooks.get("w")
+        if hook and not eng.mute:
+            hook(st, site, wid, item, val)
         return [(st, UNIT)]
     if item == "write_bytes":
         s = as_slice(eng, st, args[1])
@@ -310,6 +315,9 @@ def contract_call(eng, st, site, func, args, dty):
         d = slice_desc(eng, st, s)
         writer_append(eng, st, view, s.len, d)
         st.emit(("w", wid, "bytes", (s.len, d), site_info(site)))
+        hook = eng.hooks.get("w")
+        if hook and not eng.mute:
+            hook(st, site, wid, "bytes", (s.len, d))
         return [(st, UNIT)]
     if item == "write_bytes_at":
         s = as_slice(eng, st, args[1])
@@ -322,7 +330,10 @@ def contract_call(eng, st, site, func, args, dty):
         ok = eng.ent(st, c)
         eng.oblig("writer-pre", frame, bb, label, ok, st,
                   None if ok else "overwrite [%r, +%r) not proven inside the %r octets written" % (off.lin, s.len, W), t.get("ln"))
-        st.emit(("wat", wid, (s.len, d), off, site_info(site), ok))
+        st.emit(("wat", wid, (s.len, d), off, site_info(site), ok, W))
+        hook = eng.hooks.get("wat")
+        if hook and not eng.mute:
+            hook(st, site, wid, s.len, d, off, W)
         if not ok and not eng.add(st, c):
             return []
         if kind == "vec":
